@@ -31,6 +31,33 @@ def shard(args):
     cases = []
     feats = {}
     for i in range(s, n, nsh):
+        if i % 20 == 7:
+            # well-formed exchanges with a content-coded body (benign compression ratios, so the bomb heuristic has no say; codings
+            # on which the unchanged parser never restarts), also with a bomb limit far below the body size
+            from . import c07
+            r = grammar.Rng(seed * 7919 + i)
+            words = [b'alpha', b'beta', b'gamma', b'delta', b'request', b'response', b'header', b'body', b'chunk', b'\r\n', b' ', b'<p>', b'</p>', b'0123456789']
+            if r.chance(0.5):
+                payload = b' '.join(r.pick(words) + (b'%d' % r.randrange(1000)) for _ in range(r.randint(200, 6000)))
+            else:
+                payload = (b'The quick brown fox jumps over the lazy dog. ' * r.randint(20, 600))[:r.randint(500, 26000)]
+            coding = r.pick(['gzip', 'x-gzip', 'deflate-raw', 'lzma'])
+            body = c07.encode(r, coding, payload)
+            side = 'res' if r.chance(0.75) else 'req'
+            if side == 'req' and coding == 'x-gzip':
+                coding = 'gzip'
+            fh, fbody = c07.frame(r, body, r.pick(['cl', 'chunked', 'close']) if side == 'res' else r.pick(['cl', 'chunked']))
+            hdr = ''.join(h + '\r\n' for h in fh)
+            if side == 'res':
+                ops = [(hxb.REQ, b'GET /coded HTTP/1.1\r\nHost: h\r\n\r\n'),
+                       (hxb.RES, ('HTTP/1.1 200 OK\r\nContent-Encoding: %s\r\n%s\r\n' % (c07.HEADER_TOKEN[coding], hdr)).encode('latin-1') + fbody), (hxb.CLOSE, None)]
+            else:
+                ops = [(hxb.REQ, ('POST /coded HTTP/1.1\r\nHost: h\r\nContent-Encoding: %s\r\n%s\r\n' % (c07.HEADER_TOKEN[coding], hdr)).encode('latin-1') + fbody),
+                       (hxb.RES, b'HTTP/1.1 200 OK\r\nContent-Length: 0\r\n\r\n'), (hxb.CLOSE, None)]
+            cfg = {'PERSONALITY': r.randrange(10), 'REQ_DECOMP': 1, 'LZMA_LAYERS': 1, 'BOMB_LIMIT': r.pick([0, 0, 2048, 4096, 100000])}
+            cases.append((i, cfg, ops))
+            feats['coded-body'] = feats.get('coded-body', 0) + 1
+            continue
         ex = grammar.gen_exchange(seed * 1000003 + i, {'res_fold': True, 'max_body': 80 if i % 4 else 400})
         r = grammar.Rng(seed * 7919 + i)
         kind, ops = oracle.schedules(ex, r, r.pick(['seq', 'pipelined', 'coalesced', 'random']))
